@@ -217,6 +217,9 @@ func c13GenIP(t *rapid.T) system.IP {
 		bits := 64
 		if kind <= 3 {
 			bits = rapid.SampledFrom([]int{48, 56, 63, 65, 96, 128}).Draw(t, "bits")
+			if rapid.Bool().Draw(t, "anybits") {
+				bits = rapid.IntRange(0, 128).Draw(t, "bitsv")
+			}
 		}
 		s := fmt.Sprintf("%s%x:%s/%d", n, sub, h, bits)
 		if h == ":" {
